@@ -43,6 +43,7 @@ type progress struct {
 	zeroRun atomic.Int64 // consecutive (0,nil) reads seen by the sink
 	prompts atomic.Int64
 	entry   atomic.Value // string: entry point currently executing (panic/hang keys)
+	private bool         // drain must not use the shared (sequential-case) buffers: concurrent streams
 }
 
 func (p *progress) setEntry(e string) { p.entry.Store(e) }
@@ -76,8 +77,10 @@ func drain(r io.Reader, bufSize int, p *progress) (n int64, capped bool, err err
 	if bufSize <= 0 {
 		bufSize = 4096
 	}
-	buf := drainBufs[bufSize]
-	if buf == nil {
+	var buf []byte
+	if p.private {
+		buf = make([]byte, bufSize)
+	} else if buf = drainBufs[bufSize]; buf == nil {
 		buf = make([]byte, bufSize)
 		drainBufs[bufSize] = buf
 	}
